@@ -162,3 +162,26 @@ Definition pubsub_effects (r : vm_result) : effects :=
 Definition handle_message (val : hdr -> valres) (ver : hdr -> verres) (w : waitres) (m : message)
   : effects :=
   pubsub_effects (verify_message val ver w m).
+
+(** ** several local Subscriptions (Subscriber.Subscribe called more than once)
+
+    Every Subscribe() call gives its own pubsub.Subscription on the topic; Cancel() ends it.
+    go-libp2p-pubsub hands an accepted message once to every subscription of the topic that
+    is live when the message is accepted, and nothing to a cancelled one (its contract; modelled,
+    observed by the harness). [deliveries]: what the NextHeader calls of each Subscription
+    yield for one message. *)
+Inductive substate := SubLive | SubCancelled.
+
+Definition deliver_to (e : effects) (s : substate) : list nhres :=
+  match s, e_deliver e with
+  | SubLive, Some r => [r]
+  | _, _ => []
+  end.
+
+Definition deliveries (e : effects) (subs : list substate) : list (list nhres) :=
+  map (deliver_to e) subs.
+
+(** a gossip message arriving at a node with the local Subscriptions [subs] *)
+Definition handle_message_subs (val : hdr -> valres) (ver : hdr -> verres) (w : waitres) (m : message)
+           (subs : list substate) : list (list nhres) :=
+  deliveries (handle_message val ver w m) subs.
